@@ -27,7 +27,7 @@ open Genq.Types (J)
 
 /-- leaf kinds: Go string / int / float64 / bool / interface{} (or a bound type without methods) / a bound type
     with a configured (un)marshaler (opaque: the model keeps the JSON it was given) -/
-inductive Leaf | str | int | float | bool | any | custom
+inductive Leaf | str | int | float | bool | any | custom | map
 deriving DecidableEq, Repr
 
 mutual
@@ -80,6 +80,7 @@ def zeroJ : Leaf → J
   | .bool => .bool false
   | .any => .null
   | .custom => .null
+  | .map => .null
 
 def isDigits (cs : List Char) : Bool := !cs.isEmpty && cs.all Char.isDigit
 
@@ -100,6 +101,7 @@ def decLeaf (k : Leaf) (j : J) : Except Err Val :=
   | .bool, .bool b => .ok (.leaf (.bool b))
   | .any, j => .ok (.leaf j)
   | .custom, j => .ok (.leaf j)                             -- opaque: the configured unmarshaler keeps what it is given
+  | .map, .obj o => .ok (.leaf (.obj o))                    -- a Go map[string]interface{}: objects only
   | _, _ => .error .typeMismatch
 
 mutual
